@@ -1,2 +1,3 @@
 pub mod common;
+pub mod wiregen;
 pub mod routersim;
